@@ -34,6 +34,10 @@ pub struct Hist {
 pub fn classify(interp: &Interp, f: Failure, out: &mut CaseOut) -> Option<Failure> {
     let c = f.clause.as_str();
     let own = c.starts_with("rolled_back_txn_") || c == "failed_statement_partial_effect" || c == "failed_batch_partial_effect" || c.starts_with("session_") || c == "rollback_failed";
+    if c.starts_with("pre_divergence.") {
+        out.labels.push("abandoned.pre_divergence".into());
+        return None;
+    }
     if own {
         return Some(f);
     }
@@ -87,7 +91,7 @@ pub fn run_with(c: &Hist, excluded: &BTreeMap<String, String>) -> CaseOut {
     for t in &it.skipped {
         out.excluded.push(t.clone());
     }
-    for l in ["txn.rollback", "txn.drop_session", "failed_stmt", "batch.failing_member", "txn.noncommit_after_insert", "txn.noncommit_after_update", "txn.noncommit_after_delete", "txn.noncommit_after_create", "txn.noncommit_after_drop", "update.indexed_column"] {
+    for l in ["admin.reopen", "txn.rollback", "txn.drop_session", "failed_stmt", "batch.failing_member", "txn.noncommit_after_insert", "txn.noncommit_after_update", "txn.noncommit_after_delete", "txn.noncommit_after_create", "txn.noncommit_after_drop", "update.indexed_column"] {
         if it.tags.contains(l) {
             out.labels.push(l.to_string());
         }
@@ -104,19 +108,42 @@ fn gen_cfg() -> BoxedStrategy<Cfg> {
 }
 
 pub fn opts(ctx: &ShardCtx) -> GenOpts {
-    let mut o = GenOpts { sessions: 1, max_steps: ctx.limit("steps", 22) as usize, ..GenOpts::default() };
+    let mut o = GenOpts { sessions: 1, reopen: true, max_steps: ctx.limit("steps", 22) as usize, ..GenOpts::default() };
     o.update_indexed = !ctx.excluded("update.indexed_column");
     o
+}
+
+/// Shape aimed at what survives a close/reopen: many short sessions that write and do not commit
+/// (their ids cover every residue class of the persisted aborted-transaction bookkeeping), then a reopen.
+fn gen_rb_reopen() -> BoxedStrategy<Vec<Step>> {
+    let sess = (prop_oneof![
+        3 => prop::collection::vec(gen_aval(false), 5).prop_map(|r| AStmt::Insert { t: 0, rows: vec![r], partial: false }),
+        1 => gen_apred(false).prop_map(|pred| AStmt::Delete { t: 0, pred }),
+    ], any::<bool>(), prop::bool::weighted(0.15))
+        .prop_map(|(st, drop, commit)| vec![Step::Begin(0), Step::Exec(0, st), if commit { Step::Commit(0) } else if drop { Step::DropSession(0) } else { Step::Rollback(0) }]);
+    (gen_create(&GenOpts { constraints: false, defaults: false, ..GenOpts::default() }), prop::collection::vec(prop::collection::vec(gen_aval(false), 5), 1..4), prop::collection::vec(sess, 4..24), 0u8..6, prop::collection::vec(gen_astmt(&GenOpts { ddl: false, bad: false, ..GenOpts::default() }), 0..4))
+        .prop_map(|(c, rows, sessions, cfg, tail)| {
+            let mut v = vec![Step::Auto(c), Step::Auto(AStmt::Insert { t: 0, rows, partial: false })];
+            for s in sessions {
+                v.extend(s);
+            }
+            v.push(Step::Reopen(cfg));
+            v.extend(tail.into_iter().map(Step::Auto));
+            v
+        })
+        .boxed()
 }
 
 pub fn run_shard(ctx: &mut ShardCtx) {
     if ctx.shard == 0 {
         ctx.witnesses(&replay);
     }
-    let n = ctx.share(ctx.tier.pick(3_000, 60_000));
+    let n = ctx.share(ctx.tier.pick(8_000, 120_000));
     let excluded = ctx.excludes.clone();
     let strat = (gen_cfg(), gen_history(&opts(ctx))).prop_map(|(cfg, steps)| Hist { cfg, steps });
     ctx.search("history", strat, n, &|c: &Hist| run_with(c, &excluded));
+    let strat2 = (gen_cfg(), gen_rb_reopen()).prop_map(|(cfg, steps)| Hist { cfg, steps });
+    ctx.search("history", strat2, n / 6, &|c: &Hist| run_with(c, &excluded));
 }
 
 pub fn replay(kind: &str, case: &Value) -> CaseOut {
